@@ -94,6 +94,15 @@ def unary_templates(level="std"):
                   lambda ch, p, cols: ("sel", ch, ("inseq", B, (A, ("lit", p.fresh("k")))))))
         T.append(("sel inrange", lambda cols: "a" in cols,
                   lambda ch, p, cols: ("sel", ch, ("inrange", A, 1, 6, 2))))
+    if level == "full":
+        # container predicates whose folding answer could make the selection vanish (or doom it): descending, empty and
+        # literal-free containers, under a negation as well
+        T.append(("sel not inrange desc", lambda cols: "a" in cols,
+                  lambda ch, p, cols: ("sel", ch, ("not", ("inrange", A, 5, 1, -1)))))
+        T.append(("sel inrange empty", lambda cols: "a" in cols,
+                  lambda ch, p, cols: ("sel", ch, ("inrange", A, 3, 3, 1))))
+        T.append(("sel not inseq()", lambda cols: "a" in cols,
+                  lambda ch, p, cols: ("sel", ch, ("not", ("inseq", A, ())))))
     T.append(("dedup", lambda cols: True, lambda ch, p, cols: ("dedup", ch)))
     T.append(("sort a", lambda cols: "a" in cols, lambda ch, p, cols: ("sort", ch, ((A, True),))))
     T.append(("sort -a", lambda cols: "a" in cols, lambda ch, p, cols: ("sort", ch, ((A, False),))))
